@@ -111,6 +111,10 @@ def run(ctx):
         except ImportError:
             cfgs.remove("C")
             ctx.notes.append("configuration C (pyx model) not available")
+        except Exception as e:  # noqa: BLE001  (PyxTranslateError / a model that does not even import)
+            # decide configuration P first; an undecidable C configuration is reported only if P found nothing
+            cfgs.remove("C")
+            ctx.deferred = "configuration C undecided, the pyx model could not be built: %s: %s" % (type(e).__name__, str(e)[:300])
     tasks = []
     n1 = n1_points()
     for cfg in cfgs:
